@@ -129,11 +129,19 @@ def run(req):
                 out.append({'id': m['id']})
         return out
 
+    CONSTS = {'None': None, '--no-default--': core.no_default, 'True': True, 'False': False}
+
+    def atom(name):
+        if isinstance(name, str) and name.startswith('const:'):
+            lab = name[6:]
+            return CONSTS[lab] if lab in CONSTS else lab
+        return name
+
     def conv(v, fname=None):
         if v is None or isinstance(v, (bool, int)):
             return v
         if isinstance(v, str):
-            return v
+            return atom(v)
         if isinstance(v, list):
             return [conv(x) for x in v]
         if 'str' in v:
@@ -143,7 +151,7 @@ def run(req):
                 return ()
             if fname == 'kwargs':
                 return {}
-            return v['elem']
+            return atom(v['elem'])
         if 'obj' in v:
             return obj(v['obj'])
         if 'callable' in v:
@@ -164,7 +172,7 @@ def run(req):
             elif kind == 'pair':
                 items = [(p['x'], mk_md(p['md'])) for p in v['seq']]
             else:
-                items = list(v['seq'])
+                items = [atom(i) for i in v['seq']]
             if v.get('pytype') == 'deque':
                 return deque(items, maxlen=v.get('maxlen'))
             if v.get('pytype') == 'tuple':
@@ -204,9 +212,9 @@ def run(req):
     # counters reachable from buffers may also be r
     if r is None:
         r = RefCounter(initial=1000, loop=loop)
-    x = inp.get('x')
+    x = atom(inp.get('x'))
     if inp.get('extra', {}).get('x_items') is not None:
-        x = tuple(inp['extra']['x_items'])
+        x = tuple(atom(i) for i in inp['extra']['x_items'])
 
     # recording child -------------------------------------------------------
     log = {'emitted': [], 'emitted_md': [], 'emit_rets': [], 'snaps': [], 'release_running': []}
